@@ -24,10 +24,19 @@ def rule_table():
     def key(full):
         p, r = full.split("-R")
         return (p, int(r))
+    generic = {}
+    for full in list(seen):
+        if "-G" in full:
+            s, props = seen.pop(full)
+            generic.setdefault(full.split("-")[1], (s, []))[1].extend(props)
     for full in sorted(seen, key=key):
         s, props = seen[full]
         rows.append("| %s | %s | %s | %s |" % (full, s.kind, s.title.replace("|", "/"), ", ".join(sorted(props))))
-    return "\n".join(rows), len(seen)
+    for g in sorted(generic):
+        s, props = generic[g]
+        rows.append("| Cxx-%s | %s | %s (over the anchor files of the property) | all %d properties, one instance each |"
+                    % (g, s.kind, s.title.replace("|", "/"), len(set(props))))
+    return "\n".join(rows), len(seen) + len(generic)
 
 
 def seed_table():
